@@ -30,10 +30,10 @@ EXTENDS Naturals, Integers, Sequences, FiniteSets, TLC, Json, SimCamMath
 CONSTANTS KINDS,      \* subset of {0,1,2}
           BINS,       \* requested binning values (0 and non powers of two included on purpose)
           TYPES,      \* requested sample types
-          XS, YS,     \* requested shape.x / shape.y values
+          XS, YS,     \* requested shape.x / shape.y values of the first configuration
+          XS2, YS2,   \* ... of a re-configuration (smaller sets: set is memoryless except for buffers / run state)
           OES,        \* subset of 0..3: codes of <<offset.x, offset.y, exposure_us>> triples, see OE
           AVX, FIX_SIZE, FIX_LOCK, FIX_ALIGN, ALIGN16,
-          MaxDepth,   \* client calls per history
           SampleMod   \* export 1 transition in SampleMod
 
 VARIABLES kind,
@@ -61,13 +61,12 @@ MetaOffHigh(b, cur) == Max2(0, MaxDimFor(b) - cur - 1) \* get_meta: max(0, w - c
 
 \* what the harness reads back after every call (get, get_shape, get_meta, allocation seam, HAL state)
 Observables ==
-  [hs |-> hstate, run |-> IF running THEN 1 ELSE 0,
-   b |-> props.b, t |-> props.t, ox |-> props.ox, oy |-> props.oy, sx |-> props.sx, sy |-> props.sy, ex |-> props.ex,
-   w |-> ish.w, h |-> ish.h, ty |-> ish.t, sh |-> Strides(ish)[3], sp |-> Strides(ish)[4],
-   fs |-> fsize, rs |-> rsize,
-   xh |-> MaxDimFor(props.b), yh |-> MaxDimFor(props.b),
-   oxh |-> MetaOffHigh(props.b, props.sx), oyh |-> MetaOffHigh(props.b, props.sy),
-   st |-> res.st, cp |-> res.cp]
+  <<hstate, IF running THEN 1 ELSE 0,
+    props.b, props.t, props.ox, props.oy, props.sx, props.sy, props.ex,
+    ish.w, ish.h, ish.t, Strides(ish)[3], Strides(ish)[4],
+    fsize, rsize,
+    MaxDimFor(props.b), MetaOffHigh(props.b, props.sx), MetaOffHigh(props.b, props.sy),
+    res.st, res.cp>>
 
 Defaults == [b |-> 1, t |-> 0, ox |-> 0, oy |-> 0, sx |-> 1920, sy |-> 1080, ex |-> 10000]
 
@@ -90,7 +89,6 @@ BufBytes(nb, sx, sy, t) ==
 
 Set(r) ==
   LET nb == NormBin(r.b) IN
-  /\ Len(hist) < MaxDepth
   /\ IF IsPow2(nb)
      THEN \* accepted: properties replaced, shape clamped against MAX/binning, both buffers reallocated
        LET sx == ClampDim(r.sx, nb)  sy == ClampDim(r.sy, nb)  n == BufBytes(nb, sx, sy, r.t) IN
@@ -114,14 +112,14 @@ Set(r) ==
 OE(c) == CASE c = 0 -> <<0, 0, 1>> [] c = 1 -> <<7, 3, 1>> [] c = 2 -> <<9000, 8191, 40>> [] OTHER -> <<1, 4095, 2>>
 FirstRequests == { [b |-> b, t |-> t, ox |-> OE(c)[1], oy |-> OE(c)[2], sx |-> x, sy |-> y, ex |-> OE(c)[3]] :
                      b \in BINS, t \in TYPES, x \in XS, y \in YS, c \in OES }
-\* get / modify one field / set, as clients do
+\* re-configuration = get / modify / set, as clients do: another binning with everything else kept (the shape is
+\* re-clamped), another pixel type, another region, other offsets / exposure
 NextRequests == { [props EXCEPT !.b = b] : b \in BINS } \cup { [props EXCEPT !.t = t] : t \in TYPES }
-                \cup { [props EXCEPT !.sx = x] : x \in XS } \cup { [props EXCEPT !.sy = y] : y \in YS }
+                \cup { [props EXCEPT !.sx = x, !.sy = y] : x \in XS2, y \in YS2 }
                 \cup { [props EXCEPT !.ox = OE(c)[1], !.oy = OE(c)[2], !.ex = OE(c)[3]] : c \in OES }
 
 \* ---- camera_start / camera_stop ------------------------------------------------------------------
 Start ==
-  /\ Len(hist) < MaxDepth
   /\ hstate = 2                                      \* client contract: start only an armed camera
   /\ running' = TRUE /\ hstate' = 3 /\ spc' = "top" /\ rendered' = FALSE
   /\ res' = [st |-> 0, cp |-> 0]
@@ -129,7 +127,6 @@ Start ==
   /\ Record("T", <<0, 0, 0, 0, 0, 0, 0>>)
 
 Stop ==
-  /\ Len(hist) < MaxDepth
   /\ LockFree
   /\ IF hstate = 3
      THEN running' = FALSE /\ hstate' = 2 /\ spc' = "off"
@@ -141,7 +138,6 @@ Stop ==
 \* ---- camera_get_frame -> simcam_get_frame ----------------------------------------------------------
 \* mode 0: caller's capacity = bytes_of_image(shape); 1: capacity = that + 64; 2: capacity = that - 1 (too small)
 GetFrame(mode) ==
-  /\ Len(hist) < MaxDepth
   /\ IF hstate # 3
      THEN \* HAL: CHECK(state == Running) fails, the driver is not called
        /\ res' = [st |-> 1, cp |-> 0]
@@ -170,7 +166,8 @@ StBegin ==     \* reads im.render_data and starts writing
   /\ UNCHANGED <<kind, props, ish, fsize, rsize, hstate, running, cap, replaced, rendered, configured, req, res, hist>>
 StEnd ==       \* binning passes done (they re-read properties.binning), frame may be published
   /\ spc = "rendering" /\ spc' = "top" /\ rendered' = TRUE
-  /\ UNCHANGED <<kind, props, ish, fsize, rsize, hstate, running, cap, replaced, configured, req, res, hist>>
+  /\ cap' = [W |-> 0, H |-> 0, t |-> 0] /\ replaced' = FALSE      \* dead after the iteration
+  /\ UNCHANGED <<kind, props, ish, fsize, rsize, hstate, running, configured, req, res, hist>>
 
 \* ---- labelled next-state relation ----------------------------------------------------------------------
 L_SetFirst == ~configured /\ \E r \in FirstRequests : Set(r) /\ lastAct' = "SetFirst"
